@@ -1,7 +1,7 @@
 (* C05 — property theorems only: each closed by [exact] and followed by Print Assumptions. *)
 From Coq Require Import List Arith NArith ZArith.
 From AV Require Import Model.C05_Enc Model.C05_Levels.
-From AV Require Import Proofs.C05_Bits Proofs.C05_Rle Proofs.C05_Wrap Proofs.C05_Delta Proofs.C05_Plain Proofs.C05_Levels Proofs.C05_Examples.
+From AV Require Import Proofs.C05_Bits Proofs.C05_BitWriter Proofs.C05_Rle Proofs.C05_Wrap Proofs.C05_Delta Proofs.C05_Plain Proofs.C05_Levels Proofs.C05_Examples.
 Import ListNotations.
 
 (* BitWriter::put_value / BitReader::get_value at the bit-stream level: packing n values of any width w
@@ -11,6 +11,15 @@ Theorem bitpack_roundtrip : forall (w : nat) (vs : list N) (padding : list bool)
   unpack w (length vs) (pack w vs ++ padding) = vs.
 Proof. exact C05_Bits.bitpack_roundtrip. Qed.
 Print Assumptions bitpack_roundtrip.
+
+(* M = S: the word-level BitWriter (64-bit accumulator, spill when 64 bits are reached, checked shifts,
+   flush of ceil(bit_offset/8) bytes) writes exactly the concatenated LSB-first bit groups, zero padded
+   to a byte - for every sequence of (value, width) with width <= 64 and value < 2^width *)
+Theorem bitwriter_put_value_spec : forall ops : list (N * N),
+  Forall (fun p => (snd p <= 64)%N /\ (fst p < 2^(snd p))%N) ops ->
+  bw_run ops = bits_to_bytes (flat_map (fun p => bits_of (N.to_nat (snd p)) (fst p)) ops).
+Proof. exact C05_BitWriter.bitwriter_spec. Qed.
+Print Assumptions bitwriter_put_value_spec.
 
 (* put_vlq_int / get_vlq_int: every u64 survives, 10 bytes suffice *)
 Theorem vlq_roundtrip : forall (n : N) (rest : list N),
